@@ -878,3 +878,60 @@ def install_reduction_patches():
             return f
 
         setattr(_pd.Series, name, make(orig, model))
+
+
+_csv_patched = False
+
+
+def install_read_csv_patch():
+    """pd.read_csv is C code: symbolic integers reach it as their unique decimal
+    tokens (DESIGN.md 2.5).  After the real parser has run, token values in
+    integer / float columns are mapped back to the proxies they stand for."""
+    global _csv_patched
+    if _csv_patched:
+        return
+    _csv_patched = True
+    orig = _pd.read_csv
+
+    def read_csv(*a, **k):
+        df = orig(*a, **k)
+        if not _sym_mode() or not isinstance(df, _pd.DataFrame):
+            return df
+        table = core.CUR.nonce_by_text
+        if not table:
+            return df
+        for name in list(df.columns):
+            colv = df[name]
+            if colv.dtype.kind in "iu":
+                vals = colv.values
+                if len(vals) and (abs(vals) >= 700000000).any():
+                    out = []
+                    hit = False
+                    for v in vals:
+                        key = str(abs(_builtin_int(v)))
+                        x = table.get(key)
+                        if x is not None and isinstance(x, SymInt):
+                            out.append(-x if v < 0 else x)
+                            hit = True
+                        else:
+                            out.append(_builtin_int(v))
+                    if hit:
+                        df[name] = _pd.Series(_obj_array(out), index=df.index, dtype=object)
+            elif colv.dtype.kind == "f":
+                vals = colv.values
+                out = []
+                hit = False
+                for v in vals:
+                    x = None
+                    if v == v and 0.7 <= abs(v) < 0.8:
+                        x = table.get("%.10f" % abs(v))
+                    if x is not None and isinstance(x, SymReal):
+                        out.append(-x if v < 0 else x)
+                        hit = True
+                    else:
+                        out.append(_builtin_float(v))
+                if hit:
+                    df[name] = _pd.Series(_obj_array(out), index=df.index, dtype=object)
+        return df
+
+    _pd.read_csv = read_csv
